@@ -72,8 +72,16 @@ SCHEMES = ["tcp", "udp", "http", "x", "a_1", "HTTP", "s9", "_"]
 PATHCH = "abz/?&=#:[]@%._-~ 09"
 
 
+FRAGMENTS = ["://", "http://x", "?url=http://h:80/", ":80", ":", "::", "[::1]:9", "//", "a://b://c", "@h:1", "%3A%2F%2F", ":99999"]
+
+
 def rand_path(rng):
-    return "".join(rng.choice(PATHCH) for _ in range(rng.randrange(0, 12)))
+    p = "".join(rng.choice(PATHCH) for _ in range(rng.randrange(0, 12)))
+    if rng.random() < 0.35:
+        # a path / query is free text: it may itself contain scheme separators, colons, ports, brackets
+        k = rng.randrange(0, len(p) + 1)
+        p = p[:k] + rng.choice(FRAGMENTS) + p[k:]
+    return p
 
 
 def lit_op(rng):
@@ -97,6 +105,9 @@ def lit_op(rng):
 def numeric_op(rng):
     host = rng.choice(["127.0.0.1", "localhost", "::1", "192.0.2.2"])
     num = rng.choice(PREFIX) + (rng.choice(BAD) if rng.random() < 0.7 else rng.choice(GOOD))
+    if rng.random() < 0.15:
+        # what reaches getaddrinfo is the C string: anything after an embedded NUL is cut off
+        num += rng.choice(["\x00", "\x00/tcp", "\x00junk", "\x00 80"])
     where = rng.randrange(3)
     if where == 0:
         hp = ("[%s]" % host) if (":" in host or rng.random() < 0.3) else host
